@@ -73,9 +73,9 @@ def named_problem(rng, big=False):
     return lp, cn, rn
 
 
-def build_lines(slot, lp, cn, rn):
+def build_lines(slot, lp, cn, rn, rows_first=None):
     lines = ["create %d %s" % (slot, lp.sense)]
-    if gen.hash_str(lp.line()) % 3 == 0:
+    if rows_first if rows_first is not None else gen.hash_str(lp.line()) % 3 == 0:
         # rows first, then the columns with their entries: the structural columns then do not occupy the first matrix
         # columns (structmap is not the identity), which is what a user gets who adds columns to an existing model
         for i, r in enumerate(lp.rows):
@@ -310,6 +310,17 @@ def run(pid, tier, seed):
     ext = {"LP": "lp", "MPS": "mps"}
     probs = [named_problem(rng.fork("p%d" % k)) for k in range(160 if quick else 3000)]
     probs += [named_problem(rng.fork("big%d" % k), big=True) for k in range(4 if quick else 60)]    # expressions long enough to wrap lines
+    # long objectives with mixed signs (the writer looks ahead for the sign of the next term when it wraps a line), half of them
+    # on problems built rows first (structmap is not the identity)
+    nwrap = 6 if quick else 60
+    wrap_from = len(probs)
+    for k in range(nwrap):
+        r = rng.fork("wrapobj%d" % k)
+        lp, cn, rn = named_problem(r, big=True)
+        for c in lp.cols:
+            if r.chance(0.85):
+                c[0] = F(r.choice([-1, 1]) * r.rint(1, 9), r.choice([1, 1, 3, 7]))
+        probs.append((lp, cn, rn))
     jobs = []
     for k, (lp, cn, rn) in enumerate(probs):
         r = rng.fork("j%d" % k)
@@ -317,7 +328,7 @@ def run(pid, tier, seed):
         f1 = "a%d.%s%s" % (k % 5, ext[first], comp)
         f2 = "b%d.%s" % (k % 5, ext[other])
         f3 = "c%d.%s" % (k % 5, ext[first])
-        lines = build_lines(0, lp, cn, rn) + ["dumpapi 0",
+        lines = build_lines(0, lp, cn, rn, rows_first=(None if k < wrap_from else k % 2 == 0)) + ["dumpapi 0",
                  "write 0 %s %s" % (first, hx(f1)), "read 1 %s %s" % (first, hx(f1)), "dumpapi 1",
                  # chain: first -> other -> first
                  "write 1 %s %s" % (other, hx(f2)), "read 2 %s %s" % (other, hx(f2)), "dumpapi 2",
